@@ -37,7 +37,7 @@ def scene(rng, T):
             "sources": [{"kind": "plane", "axis": 2, "pos": 4, "dir": "+", "pol": [1.0, 0.5, 0.0], "switch": {"fixed": sorted(rng.sample(range(T), max(1, T // 2)))}},
                         {"kind": "dipole", "cell": [3, 3, 5], "pol": 2, "switch": {"start_time": 1, "end_time": max(2, T - 2)}}],
             "detectors": [{"kind": "field", "box": [[2, 5], [2, 4], [3, 7]], "name": "fd"},
-                          {"kind": "phasor", "box": [[2, 4], [2, 4], [4, 6]], "name": "ph", "switch": {"start_time": 1}},
+                          {"kind": "phasor", "box": [[2, 4], [2, 4], [4, 6]], "name": "ph", "switch": {"start_time": min(1, T - 1)}},
                           {"kind": "energy", "box": [[2, 5], [2, 5], [3, 6]], "name": "en", "opts": {"as_slices": False}}]}
 
 
@@ -70,6 +70,8 @@ def coq_expr(case, out):
         T = case["T"]
         return "(" + " && ".join(f"zlist_eqb (slice_boundaries {zlit(T)} {zlit(k)}) {lst(b, zlit)}" for k, b in zip(case["ks"], out["bounds"])) + ")%bool"
     # run structure: model on the trivial counter state must give the same final step / error as the implementation
+    if "error" in out:
+        return "false"
     parts = []
     for r in out["runs"]:
         m = f"run_fdtd Z Z.succ (fun s => s) {gcoq(r['g'])} {zlit(out['T'])} 0%Z"
@@ -87,6 +89,8 @@ def predicate(case, out):
             if not (len(b) == k + 1 and b[0] == 0 and b[-1] == T and all(x < y for x, y in zip(b, b[1:]))):
                 return (f"partition-T{T}-k{k}", f"boundaries {b} do not partition [0,{T}] into {k} non-empty increasing segments")
         return None
+    if "error" in out:
+        return ("driver-error", out["error"])
     if out["t0"] != out["T"]:
         return (f"steps-nograd-T{out['T']}", f"plain run stopped at {out['t0']} != {out['T']}")
     for r in out["runs"]:
@@ -103,7 +107,7 @@ def predicate(case, out):
 
 
 def nontrivial(case, out):
-    return case["T"] >= 2 and (case["kind"] == "bounds" or out.get("scale", 0) > 0)
+    return "error" not in out and case["T"] >= 2 and (case["kind"] == "bounds" or out.get("scale", 0) > 0)
 
 
 def classify(case, out):
